@@ -247,17 +247,31 @@ def check_mark_nodes(chk, rep, repo):
                 head, step_ok = node(ph), True  # index walk: i = nodes[i].pred
             elif init == node(ip) and e2 == node(("attr", ph, "pred")):
                 head, step_ok = ph, True  # reference walk: node = nodes[node.pred]
-        cond_ok = head is not None and li.cond == ("cmp", "!=", *sorted([NIL, ("attr", head, "pred")], key=repr))
+        from ..ir import conj, facts, mk_not
+        cont = ("cmp", "!=", *sorted([NIL, ("attr", head, "pred")], key=repr)) if head is not None else None
+        conds = [] if li.cond == ("const", True) else list(conj(li.cond))
+        body_facts = tuple(facts(li.guards)) + tuple(conds)
+        breaks = [e for e in w.events if e.kind == "break" and e.loops and e.loops[-1] == li.lid]
+        # continuation is decided by `pred != NIL` only: as the loop test (exit before marking: the terminal node
+        # is marked after the loop) and/or as a break placed after the mark and before the advance
+        cond_ok = head is not None and conds in ([], [cont]) and (bool(conds) or bool(breaks))
         inside = [e for e in w.events if e.kind == "store" and li.lid in e.loops]
         in_ok = head is not None and len(inside) == 1 and inside[0].target == ("attr", head, "relevant") \
-            and inside[0].value == ("K", "RELEVANT") and len(inside[0].guards) == 1
-        afterl = [e for e in w.events if e.kind == "store" and li.lid not in e.loops and e.seq > li.last_seq]
-        after_ok = head is not None and len(afterl) == 1 and afterl[0].target == ("attr", head, "relevant") \
-            and afterl[0].value == ("K", "RELEVANT") and not afterl[0].guards
-        # the flag must be written before the walk moves on
+            and inside[0].value == ("K", "RELEVANT") and tuple(facts(inside[0].guards)) == body_facts
+        moves = [e for e in w.events if e.kind == "bind" and li.lid in e.loops and e.name in li.carried]
         if in_ok:
-            moves = [e for e in w.events if e.kind == "bind" and li.lid in e.loops and e.seq < inside[0].seq]
-            in_ok = not moves
+            # the flag must be written before the walk moves on
+            in_ok = all(e.seq > inside[0].seq for e in moves)
+        for bk in breaks:
+            own = tuple(f for f in facts(bk.guards) if f not in body_facts)
+            if own != (mk_not(cont),) if cont is not None else True:
+                cond_ok = False
+            elif not (in_ok and inside[0].seq < bk.seq and all(bk.seq < m.seq for m in moves)):
+                cond_ok = False
+        afterl = [e for e in w.events if e.kind == "store" and li.lid not in e.loops and e.seq > li.last_seq]
+        mark_after = head is not None and len(afterl) == 1 and afterl[0].target == ("attr", head, "relevant") \
+            and afterl[0].value == ("K", "RELEVANT") and not afterl[0].guards
+        after_ok = mark_after if conds else (mark_after or not afterl)
         ok = cond_ok and step_ok and in_ok and after_ok
         if cond_ok and step_ok and in_ok and not after_ok:
             detail = "the terminal node of the path (the prototype) is not marked"
